@@ -50,6 +50,7 @@ package diff
 //@ ensures diff.Change != NoChangeDetected ==> vs_all(func(i int) bool { return 0 <= i && i < len(diffs) ==> result[i] == diffs[i] })
 
 //@ func getTypeHierarchyChange
+//@ pure
 //@ ensures result.Change != NoChangeDetected
 //@ props C13 C14
 //@ safety
@@ -62,6 +63,7 @@ package diff
 //@ ensures isStringType(type1) == isStringType(type2) && !(vs_numeric(type1) && vs_numeric(type2)) ==> result.Change == ChangedType
 
 //@ func checkNumericTypeChanges
+//@ ensures len(result) <= len(diffs)+4
 //@ ensures vs_noNone(diffs) ==> vs_noNone(result)
 //@ props C12 C13 C14
 //@ safety
@@ -78,6 +80,7 @@ package diff
 //@ ensures vs_sameExclusive(type1, type2) && vs_sameFloat(type1.Maximum, type2.Maximum) && vs_sameFloat(type1.Minimum, type2.Minimum) ==> len(result) == len(diffs)
 
 //@ func CheckStringTypeChanges
+//@ ensures len(result) <= len(diffs)+5
 //@ ensures vs_noNone(diffs) ==> vs_noNone(result)
 //@ props C12 C13 C14
 //@ safety
@@ -215,6 +218,79 @@ package diff
 //@ ensures len(sd.Diffs) == old(len(sd.Diffs))+len(diffs)
 //@ ensures vs_all(func(i int) bool { return 0 <= i && i < old(len(sd.Diffs)) ==> sd.Diffs[i] == old(sd.Diffs[i]) })
 //@ ensures vs_all(func(k int) bool { return 0 <= k && k < len(diffs) ==> sd.Diffs[old(len(sd.Diffs))+k].Code == diffs[k].Change && sd.Diffs[old(len(sd.Diffs))+k].DifferenceLocation == location && sd.Diffs[old(len(sd.Diffs))+k].Compatibility == getCompatibilityForChange(diffs[k].Change, vs_context(location)) })
+//@ ensures vs_all(func(i int) bool { return old(len(sd.Diffs)) <= i && i < len(sd.Diffs) ==> sd.Diffs[i].Code == diffs[i-old(len(sd.Diffs))].Change && sd.Diffs[i].DifferenceLocation == location && sd.Diffs[i].Compatibility == getCompatibilityForChange(sd.Diffs[i].Code, vs_context(location)) })
 //@ loop 1 invariant sd != nil && len(sd.Diffs) == old(len(sd.Diffs))+vs_done(1)
 //@ loop 1 invariant vs_all(func(i int) bool { return 0 <= i && i < old(len(sd.Diffs)) ==> sd.Diffs[i] == old(sd.Diffs[i]) })
 //@ loop 1 invariant vs_all(func(k int) bool { return 0 <= k && k < vs_done(1) ==> sd.Diffs[old(len(sd.Diffs))+k].Code == diffs[k].Change && sd.Diffs[old(len(sd.Diffs))+k].DifferenceLocation == location && sd.Diffs[old(len(sd.Diffs))+k].Compatibility == getCompatibilityForChange(diffs[k].Change, vs_context(location)) })
+//@ loop 1 invariant vs_all(func(i int) bool { return old(len(sd.Diffs)) <= i && i < len(sd.Diffs) ==> sd.Diffs[i].Code == diffs[i-old(len(sd.Diffs))].Change && sd.Diffs[i].DifferenceLocation == location && sd.Diffs[i].Compatibility == getCompatibilityForChange(sd.Diffs[i].Code, vs_context(location)) })
+
+//@ func (*SpecAnalyser).compareSimpleSchema
+//@ props C12 C13 C14
+//@ modifies &sd.Diffs
+//@ requires sd != nil && schema1 != nil && schema2 != nil
+//@ ensures old(len(sd.Diffs)) <= len(sd.Diffs)
+//@ ensures vs_all(func(i int) bool { return 0 <= i && i < old(len(sd.Diffs)) ==> sd.Diffs[i] == old(sd.Diffs[i]) })
+//@ ensures vs_all(func(i int) bool { return old(len(sd.Diffs)) <= i && i < len(sd.Diffs) ==> sd.Diffs[i].DifferenceLocation == location && sd.Diffs[i].Compatibility == getCompatibilityForChange(sd.Diffs[i].Code, vs_context(location)) })
+//@ ensures schema1.Nullable && !schema2.Nullable ==> sd.Diffs[old(len(sd.Diffs))].Code == ChangedOptionalToRequired
+//@ ensures schema1.CollectionFormat != schema2.CollectionFormat ==> vs_hasDiffCode(sd.Diffs, old(len(sd.Diffs)), ChangedCollectionFormat)
+//@ ensures vs_sameSimple(schema1, schema2) && !isArray(schema1) ==> len(sd.Diffs) == old(len(sd.Diffs))
+
+//@ func (*SpecAnalyser).compareSchema
+//@ props C12 C13 C14
+//@ trusted
+//@ modifies &sd.Diffs, sd.schemasCompared, sd.ReferencedDefinitions
+//@ requires sd != nil
+//@ ensures old(len(sd.Diffs)) <= len(sd.Diffs)
+//@ ensures vs_all(func(i int) bool { return 0 <= i && i < old(len(sd.Diffs)) ==> sd.Diffs[i] == old(sd.Diffs[i]) })
+
+//@ func (*SpecAnalyser).compareParams
+//@ props C12 C13 C14
+//@ modifies &sd.Diffs, sd.schemasCompared, sd.ReferencedDefinitions
+//@ requires sd != nil
+//@ ensures old(len(sd.Diffs)) <= len(sd.Diffs)
+//@ ensures vs_all(func(i int) bool { return 0 <= i && i < old(len(sd.Diffs)) ==> sd.Diffs[i] == old(sd.Diffs[i]) })
+//@ ensures vs_noBody(param1, param2) && !param1.Required && param2.Required ==> vs_hasBreaking(sd.Diffs, old(len(sd.Diffs)))
+//@ ensures vs_noBody(param1, param2) && param1.CollectionFormat != param2.CollectionFormat ==> vs_hasBreaking(sd.Diffs, old(len(sd.Diffs)))
+//@ ensures vs_noBody(param1, param2) && vs_sameType(param1, param2) && param1.Type == "string" && vs_narrowsString(param1, param2) ==> vs_hasBreaking(sd.Diffs, old(len(sd.Diffs)))
+//@ ensures vs_noBody(param1, param2) && vs_sameType(param1, param2) && vs_numeric(param1.Type) && vs_narrowsNumber(param1, param2) ==> vs_hasBreaking(sd.Diffs, old(len(sd.Diffs)))
+//@ ensures vs_noBody(param1, param2) && vs_sameType(param1, param2) && param1.Type == "array" && vs_narrowsArray(param1, param2) ==> vs_hasBreaking(sd.Diffs, old(len(sd.Diffs)))
+
+//@ func definitionFromRef
+//@ props C12
+//@ safety
+//@ pure
+
+//@ func getSchemaType
+//@ props C12
+//@ safety
+//@ pure
+
+//@ func getSchemaTypeStr
+//@ props C12
+//@ safety
+//@ pure
+
+//@ func formatTypeString
+//@ props C12
+//@ safety
+//@ pure
+
+//@ func primitiveTypeString
+//@ props C13 C14
+//@ safety
+//@ pure
+//@ ensures typeFormat == "" ==> result == typeName
+//@ ensures typeFormat != "" ==> result == typeName+"."+typeFormat
+
+//@ func Node.Copy
+//@ props C12 C13 C14 C15
+//@ trusted
+//@ modifies nothing
+//@ ensures result != nil && vs_fresh(result) && result.Field == n.Field && result.TypeName == n.TypeName && result.IsArray == n.IsArray
+
+//@ func (*Node).AddLeafNode
+//@ props C12 C13 C14 C15
+//@ trusted
+//@ requires n != nil && vs_fresh(n)
+//@ modifies nothing
+//@ ensures result == n
